@@ -22,7 +22,8 @@ func (hookErr) Error() string { return "conversion failed" }
 // committed once, and the conversion is asked for exactly the received amount of the voucher, for the packet's receiver.
 func VerifC11IBCHookAtomic() {
 	ctx := rt.Ctx()
-	k := NewKeeper(rt.StoreKey(types.StoreKey), rt.Codec(), rt.Subspace(), nil, nil, nil)
+	// the bank answers with arbitrary balances: the receiver may already hold vouchers of the received denomination
+	k := NewKeeper(rt.StoreKey(types.StoreKey), rt.Codec(), rt.Subspace(), nil, &convBank{moduleAddr: []byte("aggregate-module-acc")}, nil)
 	var packet channeltypes.Packet
 	rt.Fresh(&packet, "packet")
 	// The hook runs only after the ICS-20 application reported success (IBCMiddleware.OnRecvPacket; checked by C16 M2), which
